@@ -319,7 +319,10 @@ theorem C14_handles_are_elements (p : Prog) (c : WCif) : ∀ x ∈ (walkH p c).1
     for block callbacks; the numbers of frames and loops listed are those of the container denoted; `cif_container_get_frame` with the
     code of its first listed frame returns the handle of a frame with that code (a child path); `cif_container_get_item_loop` with the
     first name of its first listed loop returns a loop handle of this container holding that name.  For a loop callback:
-    `cif_loop_get_category` / `cif_loop_get_names` give the announced category and names. -/
+    `cif_loop_get_category` / `cif_loop_get_names` give the announced category and names, and a pass over the packets through the
+    handle delivers as many packets as the loop denoted has.  For a packet / item callback: the handle names the loop being walked
+    (the handle passed to loop_start: same container path, same position), the packet is the one at the iterator's position in it,
+    and category / names asked through that loop handle during the callback are those of this loop. -/
 theorem C14_handle_queries (p : Prog) (c : WCif) :
     (∀ e path, (e, Handle.cont path) ∈ (walkH p c).1 →
       ∃ code ct, lookup c path = some ct ∧ ct.code = code ∧ qCode c path = some code
@@ -331,10 +334,17 @@ theorem C14_handle_queries (p : Prog) (c : WCif) :
         ∧ (∀ l nm, ct.loops.head? = some l → l.names.head? = some nm →
             ∃ i l', qItemLoop c path nm = some (.loop path i) ∧ lookupLoop c path i = some l' ∧ nm ∈ l'.names))
     ∧ (∀ e path i, (e, Handle.loop path i) ∈ (walkH p c).1 →
-      ∃ cat names, (e = .loopStart cat names ∨ e = .loopEnd cat names)
-        ∧ qLoopCategory c path i = some cat ∧ qLoopNames c path i = some names) := by
+      ∃ cat names l, (e = .loopStart cat names ∨ e = .loopEnd cat names)
+        ∧ qLoopCategory c path i = some cat ∧ qLoopNames c path i = some names
+        ∧ lookupLoop c path i = some l ∧ qLoopPackets c path i = some l.packets.length)
+    ∧ (∀ e path i j, (e, Handle.packet path i j) ∈ (walkH p c).1 →
+      ∃ l pk, lookupLoop c path i = some l ∧ l.packets[j]? = some pk ∧ (e = .pktStart pk ∨ e = .pktEnd pk)
+        ∧ qLoopCategory c path i = some l.category ∧ qLoopNames c path i = some l.names)
+    ∧ (∀ e path i j k, (e, Handle.item path i j k) ∈ (walkH p c).1 →
+      ∃ l pk nm v, lookupLoop c path i = some l ∧ l.packets[j]? = some pk ∧ pk[k]? = some (nm, v) ∧ e = .item nm v
+        ∧ qLoopCategory c path i = some l.category ∧ qLoopNames c path i = some l.names) := by
   have hres := C14_handles_are_elements p c
-  constructor
+  refine ⟨?_, ?_, ?_, ?_⟩
   · intro e path hmem
     have hr := hres _ hmem
     have key : ∀ code (ct : WCont), lookup c path = some ct → ct.code = code →
@@ -393,10 +403,27 @@ theorem C14_handle_queries (p : Prog) (c : WCif) :
     cases e with
     | loopStart cat names =>
       obtain ⟨l, hl, h1, h2⟩ := hr
-      exact ⟨cat, names, Or.inl rfl, by simp [qLoopCategory, hl, h1], by simp [qLoopNames, hl, h2]⟩
+      exact ⟨cat, names, l, Or.inl rfl, by simp [qLoopCategory, hl, h1], by simp [qLoopNames, hl, h2], hl, by simp [qLoopPackets, hl]⟩
     | loopEnd cat names =>
       obtain ⟨l, hl, h1, h2⟩ := hr
-      exact ⟨cat, names, Or.inr rfl, by simp [qLoopCategory, hl, h1], by simp [qLoopNames, hl, h2]⟩
+      exact ⟨cat, names, l, Or.inr rfl, by simp [qLoopCategory, hl, h1], by simp [qLoopNames, hl, h2], hl, by simp [qLoopPackets, hl]⟩
+    | _ => exact absurd hr (by simp [Res])
+  · intro e path i j hmem
+    have hr := hres _ hmem
+    cases e with
+    | pktStart pk =>
+      obtain ⟨l, hl, h1⟩ := hr
+      exact ⟨l, pk, hl, h1, Or.inl rfl, by simp [qLoopCategory, hl], by simp [qLoopNames, hl]⟩
+    | pktEnd pk =>
+      obtain ⟨l, hl, h1⟩ := hr
+      exact ⟨l, pk, hl, h1, Or.inr rfl, by simp [qLoopCategory, hl], by simp [qLoopNames, hl]⟩
+    | _ => exact absurd hr (by simp [Res])
+  · intro e path i j k hmem
+    have hr := hres _ hmem
+    cases e with
+    | item nm v =>
+      obtain ⟨l, pk, hl, h1, h2⟩ := hr
+      exact ⟨l, pk, nm, v, hl, h1, h2, rfl, by simp [qLoopCategory, hl], by simp [qLoopNames, hl]⟩
     | _ => exact absurd hr (by simp [Res])
 
 -- non-vacuity: the demo CIF delivers container, loop, packet and item handles; the frame's handle is the path [0, 0]
